@@ -67,6 +67,15 @@ def rand_dt(rng):
 
 
 def rand_dt_list(rng):
+    out = rand_dt_list_(rng)
+    if rng.random() < 0.3:
+        # a list may name the same date more than once (the multiset matters, e.g. a,a,b is not a,b,b)
+        out = out + [rng.choice(out) for _ in range(rng.randint(1, 2))]
+        rng.shuffle(out)
+    return out
+
+
+def rand_dt_list_(rng):
     from icalendar.timezone import tzp
     r = rng.random()
     n = rng.randint(1, 3)
@@ -346,7 +355,22 @@ def different_value(rng, v):
             return prop.vDDDTypes(dt + timedelta(minutes=1))
         return None
     if t is prop.vDDDLists:
-        return prop.vDDDLists([d.dt + timedelta(days=1) for d in v.dts])
+        dts = [d.dt for d in v.dts]
+        distinct = []
+        for d in dts:
+            if d not in distinct:
+                distinct.append(d)
+        if len(distinct) >= 2 and len(dts) > len(distinct) and rng.random() < 0.7:
+            # same members, other multiplicities: one occurrence of a repeated date becomes another member
+            rep = next(d for d in distinct if dts.count(d) > 1)
+            other = next(d for d in distinct if d != rep)
+            i = dts.index(rep)
+            return prop.vDDDLists(dts[:i] + [other] + dts[i + 1:])
+        if len(distinct) >= 2 and rng.random() < 0.4:
+            i = rng.randrange(len(dts))
+            other = next(d for d in distinct if d != dts[i])
+            return prop.vDDDLists(dts[:i] + [other] + dts[i + 1:])
+        return prop.vDDDLists([d + timedelta(days=1) for d in dts])
     if t is prop.vGeo:
         return prop.vGeo((v.latitude + 1.0, v.longitude))
     if t is prop.vCategory:
@@ -654,7 +678,7 @@ def check_walk(ctx, t, rng):
     if len(got) != len(ref) or any(a is not b for a, b in zip(got, ref)):
         ctx.violation('walk-preorder', inp, f'walk() returned {[c.name for c in got]}, pre-order is {[c.name for c in ref]}')
         return
-    if len({id(c) for c in got}) != len(got):
+    if len({id(c) for c in got}) != len(got) and len({id(c) for c in ref}) == len(ref):
         ctx.violation('walk-once', inp, 'walk() returned a component twice')
     names = sorted({c.name for c in ref}) + ['VNOTHERE']
     for n in names:
@@ -894,6 +918,20 @@ def corpus_trees(rng, pname):
     wrap.add_component(inner)
     c4.add_component(wrap)
     out.append(('nested-vtimezones', c4))
+    # the same component object attached at several places: a position in the tree, not an object, is walked
+    c5 = Calendar()
+    shared = new_comp('VALARM')
+    shared.add('action', 'DISPLAY')
+    for i in range(2):
+        evx = Event()
+        evx.add('uid', 'shared-%d' % i)
+        evx.add_component(shared)
+        c5.add_component(evx)
+    tdx = Todo()
+    tdx.add_component(shared)
+    tdx.add_component(shared)
+    c5.add_component(tdx)
+    out.append(('shared-instance', c5))
     return out
 
 
@@ -920,6 +958,12 @@ def oracle(ctx):
             b.subcomponents = [copy.deepcopy(x), y]
             ctx.evaluated(('multiset', pname))
             expect_eq(ctx, 'multiset', a, b, {'case': '{x,x} vs {x,y}'}, False)
+            d1, d2 = date(2021, 5, 1), date(2021, 5, 2)
+            la, lb = Event(), Event()
+            la.add('rdate', [d1, d1, d2])
+            lb.add('rdate', [d1, d2, d2])
+            ctx.evaluated(('date-list-multiset', pname))
+            expect_eq(ctx, 'date-list-multiset', la, lb, {'case': 'RDATE a,a,b vs a,b,b'}, False)
             # the recorded finding, replayed on the implementation
             one = Event()
             one.add('attendee', ['a'])
